@@ -156,8 +156,11 @@ func (h *clientConnectionHandler) close() {
 		h.connectionsLock.Lock()
 		for clientAddr, holder := range h.connections {
 			delete(h.connections, clientAddr)
-			if err := holder.conn.Close(); err != nil {
-				log.Error().Err(err).Msg(err.Error())
+			// the connection is nil when the client was registered by Accept but has not been accepted yet
+			if holder.conn != nil {
+				if err := holder.conn.Close(); err != nil {
+					log.Error().Err(err).Msg(err.Error())
+				}
 			}
 			close(holder.ch)
 		}
